@@ -2728,14 +2728,20 @@ impl FunctionCompiler<'_> {
                     }
                 };
 
-                let lhs = self
-                    .builder
-                    .ins()
-                    .load(final_ty, MemFlags::trusted(), lhs, 0);
-                let rhs = self
-                    .builder
-                    .ins()
-                    .load(final_ty, MemFlags::trusted(), rhs, 0);
+                // an aggregate is compared through its address, which is the pointer itself.
+                // anything else has to be loaded first
+                let (lhs, rhs) = if sub_ty.is_aggregate() {
+                    (lhs, rhs)
+                } else {
+                    (
+                        self.builder
+                            .ins()
+                            .load(final_ty, MemFlags::trusted(), lhs, 0),
+                        self.builder
+                            .ins()
+                            .load(final_ty, MemFlags::trusted(), rhs, 0),
+                    )
+                };
 
                 self.compile_complex_compare(lhs, rhs, *sub_ty, hir_op)
             }
